@@ -42,4 +42,5 @@ Level3 == /\ pc = "sys"
 Next == Level1 \/ Level2 \/ Level3
 Spec == Init /\ [][Next]_vars
 OptimaAreOptimal == pc = "done" => \A r \in out.recs : r.ok
+StripsAreHomogeneous == pc = "done" => \A r \in out.recs : r.homog
 =============================================================================
